@@ -130,10 +130,27 @@ class GenerateWasmVisitor(Visitor.DefaultVisitor):
     def GetContext(self):
         return self.__ctx
 
+    def v_Default(self, obj, ctx=None):
+        # An instruction without a handler must not silently disappear from
+        # the generated code
+        if isinstance(obj, LinearIR.Instruction):
+            raise RuntimeError(
+                f"Unsupported instruction for WebAssembly: {obj.OpCode}"
+            )
+        return super().v_Default(obj, ctx)
+
     def v_VariableAccessInstruction(
         self, vai: LinearIR.VariableAccessInstruction, ctx: Context
     ):
         assert ctx.Code
+        if (
+            vai.Store is not None
+            or vai.Scope != LinearIR.VariableAccessScope.FUNCTION_ARGUMENT
+        ):
+            raise RuntimeError(
+                f"Unsupported variable access for WebAssembly: {vai.OpCode} {vai.Scope}"
+            )
+
         if vai.Scope == LinearIR.VariableAccessScope.FUNCTION_ARGUMENT:
             index = vai.Variable
             ctx.Code.AddInstruction(
